@@ -238,6 +238,8 @@ run_primary(struct mmgr **out_mm)
                 if (cs && (cs->cipher == IMB_CIPHER_KASUMI_UEA1_BITLEN || cs->cipher == IMB_CIPHER_SNOW3G_UEA2_BITLEN ||
                            cs->cipher == IMB_CIPHER_ZUC_EEA3))
                         g.len = 4 * (1 + (long) rng_below(&r, 40));
+                if (!cs && rng_below(&r, 6) == 0)
+                        g.len = 0; /* empty message where the algorithm permits it (item_gen clamps to the minimum otherwise) */
                 if (!P[i])
                         P[i] = item_new();
                 item_gen(P[i], cs, hs, &r, &g, mm);
